@@ -1,5 +1,5 @@
 (* Extraction of the C22 model (run from the output directory; not part of `make`). *)
-From SE Require Import C22.MPolyModel.
+From SE Require Import C22.MPolyModel C22.MPolyWfDef.
 Require Import ExtrOcamlBasic.
 Extraction "mpoly_model.ml"
-  s_from_dict s_set_of s_reconcile s_add s_sub s_mul s_neg s_pow s_eval s_eq s_hash mono_eqb.
+  s_from_dict s_set_of s_reconcile s_add s_sub s_mul s_neg s_pow s_eval s_eq s_hash mono_eqb s_okb.
